@@ -10,6 +10,7 @@ every queried cursor equals the scan cursor (T12).
 import QmcModel.Proto
 import QmcModel.Basic
 import QmcModel.FastOps
+import QmcModel.FastOpsHintDriver
 open Qmc Qmc.Proto
 
 structure St where
@@ -214,6 +215,11 @@ partial def loop (h : IO.FS.Stream) (st : St) : IO Unit := do
   let line ← h.getLine
   if line.isEmpty then return ()
   let toks := tokens line
+  if Qmc.C11H.handles (toks.headD "") then
+    -- hint fills / propagated substate / read-only iterators / heap-branch sweeps (stateless kinds, QmcModel/FastOpsHintDriver.lean)
+    IO.println (Qmc.C11H.step line)
+    loop h st
+  else
   let st' := stepSt st toks
   let qs := match toks.getLast? with | some q => parseQ q | none => []
   IO.println (if st'.bad then "panic" else describe st' qs)
